@@ -19,7 +19,7 @@ def claim(pid, cat, text, ref, note, tech):
     CLAIMS[pid] = (cat, text, ref, note, tech)
 
 claim("C08", "proof",
-      "Decides the 'two parameterisations never collide' clause exhaustively: for every impl of CustomOperationBody (all are enumerated from the type-checked program) every field of the operation's derived Eq/Hash identity flows into get_name, the literal name texts of distinct operations differ, and the instantiation caches are keyed by exactly (op, argument types) and the reported name is only used to name the glued graph, never to look one up, and glued graphs do not inherit names of auxiliary graphs (C08.G); every field consumed by instantiate() takes part in equality and hash at every nesting level, so two behaviours never share a cache key (C08.E). Meaning-preservation of the instantiated graphs is NOT decided.",
+      "Decides the 'two parameterisations never collide' clause exhaustively: for every impl of CustomOperationBody (all are enumerated from the type-checked program) every field of the operation's derived Eq/Hash identity flows into get_name, the literal name texts of distinct operations differ, and the instantiation caches are keyed by exactly (op, argument types) and the reported name is only used to name the glued graph, never to look one up, and glued graphs do not inherit names of auxiliary graphs (C08.G); every field consumed by instantiate() takes part in equality and hash at every nesting level, so two behaviours never share a cache key (C08.E); a custom node's type is taken only from its instantiation or the instantiation cache, so what type-checks can be instantiated (C08.T). Meaning-preservation of the instantiated graphs is NOT decided.",
       "DESIGN.md section 3, C08",
       "Trusted: rustc MIR + impl/ADT tables, the ccfacts dump, the value-flow engine (may-analysis: 'flows into a formatting argument / branch' is taken as 'appears in the name').",
       "custom MIR value-flow lint over all CustomOperationBody impls (rustc_private driver + Python rules)")
@@ -43,7 +43,7 @@ claim("C04", "other",
       "variant-conditioned abstract interpretation + dominance/value-flow rules on MIR (custom rustc_private lint)")
 
 claim("C02", "other",
-      "Decides structural necessary conditions over ALL protocol-building code (mpc/**, optimizer/**), hence for every compiled program: Send annotations are only placed on nop() results (C02.S, 44 sites); every protocol nop() receives a Send (C02.N); elements of a 3-out-of-3 zero sharing never reach a function's result un-sent (C02.Z - reports the known finding in mpc_psi); every Operation variant translated by an interactive protocol has its dependencies reshared by the planner and a marked node enters the mapping only via reshare() (C02.K, per variant by abstract interpretation); the de-duplication key contains annotations, annotated nodes are never folded and the meta-operation pass never lets getters see through an annotated NOP (C02.O); literal party indices are valid (C02.P). That every value a party uses is derivable by that party (a per-node ownership type) is NOT decided.",
+      "Decides structural necessary conditions over ALL protocol-building code (mpc/**, optimizer/**), hence for every compiled program: Send annotations are only placed on nop() results (C02.S, 44 sites); every protocol nop() receives a Send (C02.N); elements of a 3-out-of-3 zero sharing never reach a function's result un-sent (C02.Z - reports the known finding in mpc_psi); every Operation variant translated by an interactive protocol has its dependencies reshared by the planner and a marked node enters the mapping only via reshare() (C02.K, per variant by abstract interpretation); the de-duplication key contains annotations, annotated nodes are never folded and the meta-operation pass never lets getters see through an annotated NOP (C02.O); literal party indices are valid (C02.P); the inliner puts a body's Send annotations on every inlined copy (C02.I); ownership typing of the truncation protocols, oblivious transfer (all six role assignments) and the bit-by-public-integer product (C02.W). That every value a party uses is derivable by that party (a per-node ownership type) is NOT decided.",
       "DESIGN.md section 3, C02",
       "Trusted: the may-value-flow engine (imprecision can only add producers, i.e. cause a report), the exceptions table for un-sent NOPs (1 entry), the list of interactive helpers, MIR construction.",
       "builder value-flow (producer sets, taint) + variant-conditioned abstract interpretation over MIR (custom rustc_private lint)")
@@ -59,7 +59,7 @@ claim("C06", "other",
       "Trusted: may-value-flow (a wrong extra producer can only cause a report), abstract interpreter, MIR construction; the table of modules allowed to call add_node_with_type.",
       "must-pass-through + value-flow provenance + variant-conditioned abstract interpretation on MIR (custom rustc_private lint)")
 claim("C09", "other",
-      "Decides 'an operation whose arguments do not fit is rejected, not crashed' for the partial accessors of Type (derived: get_scalar_type/get_shape/get_dimensions) at all call sites of the type-inference slice: assuming any inadmissible variant for the receiver value, guards on the same value make the call unreachable, or every producer of the value is an admissible constructor / validated container element / struct field with an invariant / guarded argument (C09.K); constant dependency indices of all dispatchers stay within the arity table for every Operation variant (C09.A); every other panic construct of the slice is explained by a derived partial function whose call sites exclude the bad variants, a checked map lookup or a tabled reason (C09.U); indices derived from operation parameters are range-checked (C09.X); no guard compares an expression with itself (C09.S); evaluator arms that can only panic are diverted by evaluate_graph (C09.E); nodes are only created in add_node_internal and add_node infers the type (C09.F); evaluate_graph never frees the value of the output node (C09.O). That each computed value has the inferred shape, and panic-freedom of general index arithmetic, are NOT decided.",
+      "Decides 'an operation whose arguments do not fit is rejected, not crashed' for the partial accessors of Type (derived: get_scalar_type/get_shape/get_dimensions) at all call sites of the type-inference slice: assuming any inadmissible variant for the receiver value, guards on the same value make the call unreachable, or every producer of the value is an admissible constructor / validated container element / struct field with an invariant / guarded argument (C09.K); constant dependency indices of all dispatchers stay within the arity table for every Operation variant (C09.A); every other panic construct of the slice is explained by a derived partial function whose call sites exclude the bad variants, a checked map lookup or a tabled reason (C09.U); indices derived from operation parameters are range-checked (C09.X); no guard compares an expression with itself (C09.S); evaluator arms that can only panic are diverted by evaluate_graph (C09.E); nodes are only created in add_node_internal and add_node infers the type (C09.F); evaluate_graph never frees the value of the output node (C09.O); a rejected node is rolled back completely, cached type included (C09.R, shared with C11.R). That each computed value has the inferred shape, and panic-freedom of general index arithmetic, are NOT decided.",
       "DESIGN.md section 3, C09",
       "Trusted: abstract interpreter over Type/Operation variant tags (unknown calls are TOP), value-flow engine, the recognition of table-level validation loops, MIR construction.",
       "guard analysis by variant-conditioned abstract interpretation of MIR + provenance rules (custom rustc_private lint)")
@@ -87,7 +87,7 @@ claim("C03", "other",
       "Trusted: value-flow engine with an additive closure (add/subtract/sum/nop), closure-result summarisation, the list of masking protocols taken from the property's mechanism list.",
       "guard reachability by abstract interpretation + additive-closure provenance on MIR (custom rustc_private lint)")
 claim("C07", "other",
-      "Decides the clause 'a body that draws randomness is instantiated afresh for every inlined copy' through its mechanism, the ephemeral binding discipline, on every control-flow path of all 7 binding sites in inline/**: assign_input_nodes -> exactly one recursively_inline_graph -> unassign_nodes of the same graph before the next binding, loop back edge or normal return (C07.B); recursively_inline_graph skips a node only if it is bound (then it is an Input or the function diverges) and otherwise always creates a node; unassign_nodes removes every bound node (C07.F). Equivalence of the inlined graph, prefix-sum strategies and vector lengths 0/1/16 are NOT decided.",
+      "Decides the clause 'a body that draws randomness is instantiated afresh for every inlined copy' through its mechanism, the ephemeral binding discipline, on every control-flow path of all 7 binding sites in inline/**: assign_input_nodes -> exactly one recursively_inline_graph -> unassign_nodes of the same graph before the next binding, loop back edge or normal return (C07.B); recursively_inline_graph skips a node only if it is bound (then it is an Input or the function diverges) and otherwise always creates a node; unassign_nodes removes every bound node (C07.F); every inlined copy receives the source node's annotations on the node created in that iteration (C07.A). Equivalence of the inlined graph, prefix-sum strategies and vector lengths 0/1/16 are NOT decided.",
       "DESIGN.md section 3, C07",
       "Trusted: MIR CFG, recognition of error exits, abstract interpreter for the assumed membership-test outcomes.",
       "typestate (pairing/ordering) rule on MIR CFGs (custom rustc_private lint)")
